@@ -373,6 +373,33 @@ func (in *inst) rewriteFile(f *ast.File) {
 		return true
 	})
 
+	// R2b: reflect.Value.MapRange / MapKeys -> simrt (hidden map iteration order)
+	ast.Inspect(f, func(n ast.Node) bool {
+		call, ok := n.(*ast.CallExpr)
+		if !ok || len(call.Args) != 0 {
+			return true
+		}
+		sel, ok := call.Fun.(*ast.SelectorExpr)
+		if !ok {
+			return true
+		}
+		s := in.info.Selections[sel]
+		if s == nil || s.Kind() != types.MethodVal {
+			return true
+		}
+		fn, ok := s.Obj().(*types.Func)
+		if !ok || fn.Pkg() == nil || fn.Pkg().Path() != "reflect" || (fn.Name() != "MapRange" && fn.Name() != "MapKeys") {
+			return true
+		}
+		if nt, ok := s.Recv().(*types.Named); !ok || nt.Obj().Name() != "Value" {
+			return true
+		}
+		call.Args = []ast.Expr{sel.X}
+		call.Fun = &ast.SelectorExpr{X: ast.NewIdent(rtAlias), Sel: ast.NewIdent(fn.Name())}
+		in.usedRT = true
+		return true
+	})
+
 	// R2/R3 on every function body
 	var bodies []*ast.BlockStmt
 	var poss []token.Pos
